@@ -112,6 +112,11 @@ func goNameAnnotation(e compile.NamedEntity) (string, error) {
 			emsg = append(emsg, "is not capitalized")
 		}
 
+		if len(name) == 0 {
+			// There is nothing to base a suggestion on.
+			return "", fmt.Errorf("%q (from go.name annotation) is not a Go style public identifier (is empty)", name)
+		}
+
 		return "", fmt.Errorf("%q (from go.name annotation) is not a Go style public identifier (%s), suggestion: %q)", name, strings.Join(emsg, ", "), goCase(name))
 	}
 
